@@ -53,6 +53,18 @@ pub fn run(args: &Args) {
             }
         }
     }
+    // pure-component and solvent quantities derived inside mixture algorithms: activity coefficients (pure liquid reference) and Henry constants
+    for sp in specs() {
+        if sp.n() < 2 { continue }
+        for rep in 0..(if args.thorough { 3 } else { 1 }) {
+            let res = guarded(std::panic::AssertUnwindSafe(|| derived_event(&sp, rep, &mut rng.clone())));
+            match res {
+                Ok(ev) => tr.ev(ev),
+                Err(m) => tr.ev(json!({"ev":"Panic","model":sp.name,"kind":"derived","map":[0],"msg":m})),
+            }
+            rng.next();
+        }
+    }
     let n = tr.finish();
     println!("C09 trace: {} lines", n);
 }
@@ -117,5 +129,69 @@ fn event(sp: &MSpec, base_spec: &MSpec, n: usize, kind: &str, map: &[usize], arg
             ev["img"] = obs(&img, t, v, &m2);
         }
     }
+    ev
+}
+
+
+fn nanv(n: usize) -> Vec<f64> { vec![f64::NAN; n] }
+
+/// Activity coefficients and Henry constants of the full model, next to the same quantities assembled from sub-models that are built directly
+/// from the records (never through `subset`), and the Henry constants of the model with its components in reversed order.
+fn derived_event(sp: &MSpec, rep: usize, rng: &mut Rng) -> Value {
+    let n = sp.n();
+    let base = Arc::new(sp.build());
+    let rev: Vec<usize> = (0..n).rev().collect();
+    let img = Arc::new(sp.permuted(&rev).build());
+    let t = Temperature::from_reduced(sp.tscale * [0.75, 0.65, 0.85][rep % 3]);
+    let x = rng.simplex(n);
+    let one = Moles::from_reduced(Array1::from_vec(vec![1.0]));
+    let mut ev = json!({"ev":"Derived","model":sp.name,"family":sp.family,"n":n,"T":fs(t.to_reduced()),"x":fv(x.iter())});
+    // a liquid state of the mixture at 100 bar
+    let p = 1.0e7 * PASCAL;
+    if let Ok(st) = State::new_npt(&base, t, p, &Moles::from_reduced(Array1::from_vec(x.clone())), feos_core::DensityInitialization::Liquid) {
+        let direct: Vec<f64> = (0..n).map(|i| {
+            let pure = Arc::new(sp.subset(&[i]).build());
+            State::new_npt(&pure, t, st.pressure(Contributions::Total), &one, feos_core::DensityInitialization::Liquid).map(|s| s.ln_phi()[0]).unwrap_or(f64::NAN)
+        }).collect();
+        ev["activity"] = json!({"ln_phi": fv(st.ln_phi().iter()),
+            "ln_phi_pure_lib": fv(st.ln_phi_pure_liquid().map(|a| a.to_vec()).unwrap_or(nanv(n)).iter()),
+            "ln_gamma_lib": fv(st.ln_symmetric_activity_coefficient().map(|a| a.to_vec()).unwrap_or(nanv(n)).iter()),
+            "ln_phi_pure_direct": fv(direct.iter())});
+    }
+    // Henry constants: every single solvent, and the first two components as a mixed solvent when there is a third one
+    let mut solvents: Vec<(Vec<usize>, Vec<f64>)> = (0..n).map(|j| (vec![j], vec![1.0])).collect();
+    if n >= 3 { solvents.push((vec![0, 1], vec![0.4, 0.6])); solvents.push((vec![n - 1, 0], vec![0.7, 0.3])); }
+    let mut hs = vec![];
+    for (sv, xs) in solvents {
+        let mut sorted: Vec<(usize, f64)> = sv.iter().cloned().zip(xs.iter().cloned()).collect();
+        sorted.sort_by_key(|a| a.0);
+        let mut mf = vec![0.0; n];
+        for (i, xi) in &sorted { mf[*i] = *xi; }
+        let lib = State::henrys_law_constant(&base, t, &Array1::from_vec(mf.clone())).map(|h| h.to_reduced().to_vec());
+        let mf_rev: Vec<f64> = rev.iter().map(|&i| mf[i]).collect();
+        let lib_rev = State::henrys_law_constant(&img, t, &Array1::from_vec(mf_rev)).map(|h| h.to_reduced().to_vec());
+        // the solvent model built directly from its records, in index order
+        let idx: Vec<usize> = sorted.iter().map(|a| a.0).collect();
+        let xsol: Vec<f64> = sorted.iter().map(|a| a.1).collect();
+        let solvent = Arc::new(sp.subset(&idx).build());
+        let vle = if idx.len() == 1 { PhaseEquilibrium::pure(&solvent, t, None, SolverOptions::default()) }
+                  else { PhaseEquilibrium::bubble_point(&solvent, t, &Array1::from_vec(xsol.clone()), None, None, Default::default()) };
+        let mut h = json!({"solvent": idx.iter().map(|i| i + 1).collect::<Vec<_>>(), "x_solvent": fv(xsol.iter()), "lib_ok": lib.is_ok(), "lib": fv(lib.unwrap_or_default().iter()),
+            "rev_ok": lib_rev.is_ok(), "lib_reversed_model": fv(lib_rev.unwrap_or_default().iter()), "direct_ok": false});
+        if let Ok(vle) = vle {
+            let mut mv = mf.clone();
+            for (k, &i) in idx.iter().enumerate() { mv[i] = vle.vapor().molefracs[k]; }
+            let liq = State::new_nvt(&base, t, vle.liquid().volume, &(Moles::from_reduced(Array1::from_vec(mf.clone())) * vle.liquid().total_moles.to_reduced()));
+            let vap = State::new_nvt(&base, t, vle.vapor().volume, &(Moles::from_reduced(Array1::from_vec(mv)) * vle.vapor().total_moles.to_reduced()));
+            if let (Ok(liq), Ok(vap)) = (liq, vap) {
+                h["direct_ok"] = json!(true);
+                h["p"] = fs(vle.vapor().pressure(Contributions::Total).to_reduced());
+                h["ln_phi_liquid"] = fv(liq.ln_phi().iter());
+                h["ln_phi_vapor"] = fv(vap.ln_phi().iter());
+            }
+        }
+        hs.push(h);
+    }
+    ev["henry"] = json!(hs);
     ev
 }
